@@ -163,6 +163,31 @@ def rule_component_extraction(ctx):
         r.check(table(s.node["args"][1]) == table(s.node["args"][2]) and len(table(s.node["args"][1])) == 1, ex.id + "|mapping", "mapping-tables", "both ids are read from the same id-mapping table", loc=s.loc())
     # mapping = enumerate index over the component vector; labels from the same vector
     enum_src = set()
+    ENUM_T = ("core::iter::traits::iterator::Iterator::enumerate", "core::slice::iter", "core::ops::deref::Deref::deref", "core::iter::traits::collect::IntoIterator::into_iter")
+    # loop form in the function itself: `for (i, a) in component.iter().enumerate() { mapping[a.id()] = Some(i) }`
+    for st in ex.sites():
+        nd = st.node
+        inner = None
+        if st.si is not None and nd["k"] == "assign" and nd["dst"]["p"] == ["*"] and "Option<usize>" in ex.local_ty(nd["dst"]["l"]):
+            if nd["rv"]["k"] == "aggregate" and nd["rv"]["agg"].get("variant") == "Some":
+                inner = nd["rv"]["ops"][0]
+            elif nd["rv"]["k"] == "use":
+                for o in origins(ex, nd["rv"]["ops"][0], transparent=()):
+                    if o.kind == "agg" and o.data.get("variant") == "Some":
+                        inner = o.site.node["rv"]["ops"][0]
+        if inner is None:
+            continue
+        nexts = [o for o in origins(ex, inner) if o.kind == "call" and callee_decl(o.data) == "core::iter::traits::iterator::Iterator::next" and o.fields and str(o.fields[-1]) == "0"]
+        r.check(bool(nexts), ex.id + "|new-id", "new-id-source", "new id = enumeration index", "the new id of an argument is not its position in the component vector", st.loc())
+        for o in nexts:
+            its = origins(ex, o.site.node["args"][0], transparent=ENUM_T)
+            if any(callee_decl(oo.data) == "core::iter::traits::iterator::Iterator::enumerate" for oo in origins(ex, o.site.node["args"][0], transparent=()) if oo.kind == "call") or True:
+                # the enumerate adaptor must be in the chain
+                chain_has_enum = any(callee_decl(callee_of(cs)) == "core::iter::traits::iterator::Iterator::enumerate" for cs in data_deps(ex, o.site.node["args"][0])[1])
+                if chain_has_enum:
+                    for oo in its:
+                        if oo.kind == "param":
+                            enum_src.add(oo.data)
     for x in prog.closures_of(ex):
         for st in x.sites():
             nd = st.node
